@@ -181,11 +181,21 @@ class _DC:
         pass
 
 
-def _install():
-    if _PUMP["installed"]:
-        return
+class _Hang(BaseException):
+    """Raised by the CPU-time watchdog: one request burnt more than WATCHDOG_S seconds of user CPU."""
+
+
+WATCHDOG_S = 1.0
+
+
+def _on_vtalrm(signum, frame):
+    _PUMP["hung"] = True
+    raise _Hang()
+
+
+def _fresh_cooperator():
+    """A new harness-owned Cooperator per request (a hung or failed task must not leak into the next request)."""
     from twisted.internet import task
-    from twisted.logger import globalLogPublisher
     q = []
 
     def sched(f):
@@ -200,6 +210,12 @@ def _install():
         pass
     _PUMP["q"] = q
 
+
+def _install():
+    if _PUMP["installed"]:
+        return
+    from twisted.logger import globalLogPublisher
+
     def obs(event):
         f = event.get("log_failure") or event.get("failure")
         if f is not None:
@@ -213,6 +229,8 @@ def _install():
         globalLogBeginner.beginLoggingTo([obs], redirectStandardIO=False, discardBuffer=True)
     except Exception:
         globalLogPublisher.addObserver(obs)
+    import signal
+    signal.signal(signal.SIGVTALRM, _on_vtalrm)
     _PUMP["installed"] = True
 
 
@@ -272,7 +290,7 @@ class Env:
         from twisted.python.failure import Failure
         from twisted.internet.error import ConnectionDone
         del _PUMP["log"][:]
-        del _PUMP["q"][:]
+        _fresh_cooperator()
         del self.finished[:]
         ch = self.site.buildProtocol(None)
         t = MemTransport()
@@ -282,24 +300,33 @@ class Env:
             req += b"Range: " + header + b"\r\n"
         req += b"\r\n"
         escaped = None
+        _PUMP["hung"] = False
+        import signal
+        signal.setitimer(signal.ITIMER_VIRTUAL, WATCHDOG_S, 1.0)
         try:
             ch.dataReceived(req)
             q = _PUMP["q"]
             n = 0
-            while q and n < 5000:
+            while q and n < 400:
                 q.pop(0)()
                 n += 1
-            if not self.finished and not _PUMP["log"]:
+            if not self.finished and not _PUMP["log"] and n == 0:
                 # fallbacks for other ways of driving a pull producer
-                t.pull(5000)
+                t.pull(400)
                 import sys
                 r = sys.modules.get("twisted.internet.reactor")
                 k = 0
-                while r is not None and not self.finished and r.getDelayedCalls() and k < 5000:
+                while r is not None and not self.finished and r.getDelayedCalls() and k < 400:
                     r.runUntilCurrent()
                     k += 1
         except Exception as e:  # noqa
             escaped = e
+        except _Hang as e:
+            escaped = e
+        finally:
+            signal.setitimer(signal.ITIMER_VIRTUAL, 0)
+        if _PUMP["hung"] and not isinstance(escaped, _Hang):
+            escaped = _Hang()          # the watchdog exception was swallowed inside twisted: still a hang
         raw = t.value()
         done = bool(self.finished)
         logged = list(_PUMP["log"])
@@ -307,7 +334,6 @@ class Env:
             ch.connectionLost(Failure(ConnectionDone()))
         except Exception:
             pass
-        del _PUMP["q"][:]
         return raw, done, logged, escaped
 
 
@@ -468,6 +494,8 @@ def judge(data, method, header, bufsize, raw, done, logged, escaped):
 
     # 500, an exception reaching the transport's caller, or a response that is never finished after an exception
     # was logged are the same thing for the statement ("fails with an internal error"): one kind, filed by shape
+    if isinstance(escaped, _Hang):
+        return "hang", [v("hang", "request used more than %.0f s of CPU" % WATCHDOG_S)]
     if escaped is not None:
         return "exception", [v("internal-error", repr(escaped)[:200])]
     resp = parse_response(raw)
@@ -644,6 +672,7 @@ def run_shard(shard, tier, seed):
     method = method.encode()
     st = Stats()
     env = Env(family)
+    hangs = 0
     try:
         if family == "small":
             bufsize = env.set_bufsize(None)
@@ -663,6 +692,12 @@ def run_shard(shard, tier, seed):
                 st.sample({"size": size, "method": method, "range": header, "outcome": label}, 2)
             for sig, detail in bad:
                 st.violation(sig, detail, w)
+            if label == "hang":
+                hangs += 1
+                if hangs >= 3:          # a tree that hangs this often is already failed; do not burn the budget
+                    st.exhaustive = False
+                    st.notes.append("C25: shard %r stopped after 3 watchdog hangs" % (shard,))
+                    break
     finally:
         env.close()
     return st
